@@ -846,6 +846,17 @@ class Manager:
         self._connection.disconnect()  # let connection_lost do cleanup
 
     @m.output()
+    def abort_connection(self):
+        # we think we're still connected, but the Leader has given up on
+        # this connection (it may have stopped answering altogether), so
+        # do not wait for our unsent data to drain into it
+        if self._timer is not None:
+            self._timer.cancel()
+            self._timer = None
+        self._outbound.disconnecting(abort=True)
+        self._connection.disconnect()  # let connection_lost do cleanup
+
+    @m.output()
     def notify_stopped(self):
         self._stopped.fire(None)
 
@@ -913,7 +924,7 @@ class Manager:
                          send_status_dilation_generation, send_status_reconnecting])
     # but if they notice it first, abandon our (seemingly functional)
     # connection, then tell them that we're ready to try again
-    CONNECTED.upon(rx_RECONNECT, enter=ABANDONING, outputs=[abandon_connection])
+    CONNECTED.upon(rx_RECONNECT, enter=ABANDONING, outputs=[abort_connection])
     ABANDONING.upon(connection_lost_follower, enter=CONNECTING,
                     outputs=[send_reconnecting, start_connecting,
                              send_status_dilation_generation, send_status_reconnecting])
